@@ -539,6 +539,7 @@ package index
 // writeHeader (C03-D6, finding F11 fixed): the live header is never written in place; the new
 // contents go to a temporary file that is renamed over it.
 //@ func writeHeader(headerPath string, header Header) (err error)  property C03
+//@   pure
 //@   assert at before call os.WriteFile#0: @D6-never-in-place $a0 == headerPath + ".tmp"
 //@   assert at before call os.Rename#0: @D6-atomic-replace $a0 == headerPath + ".tmp" && $a1 == headerPath && event("call:os.WriteFile") == 1
 
